@@ -146,6 +146,9 @@ fn judge<TC: ModelCfg>(
                     rep.count("accepted_and_true", 1);
                 }
             } else {
+                if std::env::var("AKDMC_DEBUG_REJECT").map(|w| w == what).unwrap_or(false) {
+                    eprintln!("rejected {what} {} {:?}: {:?}", hp_name(p), allow_missing, verify_history::<TC>(label, cand.clone(), eh, vp).err());
+                }
                 rep.count("rejected", 1);
             }
         }
@@ -207,6 +210,32 @@ impl<'r, TC: ModelCfg> HistVisitor<TC> for V7<'r> {
                             judge::<TC>(self.rep, what, label, &cand, &eh, &ctx.model, &hist, json!({"claimed_range": [s, e], "absence_strategy": format!("{st:?}")}), &param_set(n as usize, (e - s + 1) as usize));
                         }
                     }
+                }
+                // ---- (1b) a version that does not exist, presented as a tombstoned entry (so no value binds its
+                // leaf hash) with existence proofs forged from the root's own value and no sibling layers
+                for s in (1..=n + 1).filter(|_| n + 1 <= cur) {
+                    for ep in [cur, cur.saturating_sub(1), versions[n as usize - 1].1 + 1] {
+                        let mut cand = srv.history_claim(label, s, n + 1, versions, cur, FutStrategy::Generator).await;
+                        let up = &mut cand.update_proofs[0];
+                        up.value = AkdValue(vec![]);
+                        up.epoch = ep;
+                        up.existence_proof = srv.forged_member_root(node_label::<TC>(label, true, n + 1));
+                        up.previous_version_proof = Some(srv.forged_member_root(node_label::<TC>(label, false, n)));
+                        judge::<TC>(self.rep, "version_invented_as_tombstone", label, &cand, &eh, &ctx.model, &hist, json!({"claimed_range": [s, n + 1], "invented_epoch": ep, "forged_existence": "root value, no sibling layers"}), &param_set(n as usize, (n + 2 - s) as usize));
+                    }
+                }
+                // the same forgery for the existence of past markers / previous-version leaves of a real range
+                {
+                    let mut cand = srv.history_claim(label, 1, n, versions, cur, FutStrategy::Generator).await;
+                    for p in cand.existence_of_past_marker_proofs.iter_mut() {
+                        *p = srv.forged_member_root(p.label);
+                    }
+                    for up in cand.update_proofs.iter_mut() {
+                        if let Some(pp) = up.previous_version_proof.as_mut() {
+                            *pp = srv.forged_member_root(pp.label);
+                        }
+                    }
+                    judge::<TC>(self.rep, "unbound_existence_proofs_forged", label, &cand, &eh, &ctx.model, &hist, json!({"forged_existence": "root value, no sibling layers"}), &param_set(n as usize, n as usize));
                 }
                 if n >= 2 {
                     self.rep.distinct(format!("{}:{}:n{}@{}", TC::NAME, show_bytes(label), n, cur));
@@ -325,6 +354,23 @@ impl<'r, TC: ModelCfg> HistVisitor<TC> for V7<'r> {
                     for (name, c) in cands {
                         let class: String = name.chars().filter(|ch| !ch.is_ascii_digit()).collect();
                         judge::<TC>(self.rep, &format!("altered_honest_proof/{class}"), label, &c, &eh, &ctx.model, &hist, json!({"alteration": name, "generated_for": hp_name(&hp)}), &param_set(n as usize, k));
+                    }
+                }
+            }
+            // ---- (1c) labels that were never published: a first version presented as a tombstoned entry (no value,
+            // no previous version: nothing but the existence proof itself binds it), existence forged from the
+            // root's own value with no sibling layers or taken from the nearest real node
+            let mut never: Vec<Vec<u8>> = alphabet::<TC>().labels.iter().chain(shape_alphabet::<TC>(0).labels.iter()).filter(|l| !ctx.model.users.contains_key(*l)).cloned().collect();
+            never.push(b"never-published".to_vec());
+            for label in never.iter() {
+                for ep in 1..=cur {
+                    let base = srv.history_claim(label, 1, 1, &[(vec![], ep)], cur, FutStrategy::Generator).await;
+                    let mut forged = base.clone();
+                    forged.update_proofs[0].existence_proof = srv.forged_member_root(node_label::<TC>(label, true, 1));
+                    let mut relabelled = base.clone();
+                    relabelled.update_proofs[0].existence_proof.label = node_label::<TC>(label, true, 1);
+                    for (name, cand) in [("nearest_real_node", base), ("nearest_real_node_relabelled", relabelled), ("root_value_no_sibling_layers", forged)] {
+                        judge::<TC>(self.rep, "unpublished_label_invented_as_tombstone", label, &cand, &eh, &ctx.model, &hist, json!({"invented_epoch": ep, "forged_existence": name}), &[HistoryParams::Complete, HistoryParams::MostRecent(1), HistoryParams::MostRecent(2)]);
                     }
                 }
             }
@@ -453,9 +499,9 @@ fn run_dishonest<TC: ModelCfg>(args: &Args, rep: &Report) {
 pub fn run(args: &Args) -> i32 {
     let rep = Report::new("C07", &args.tier, "exploration");
     let plan = if args.quick() {
-        Plan { base_depth: 2, ext_depth: 0, chains: vec![(5, 1)], cache: CacheCfg::None, par: AzksParallelismConfig::disabled() }
+        Plan { base_depth: 2, ext_depth: 0, chains: vec![(5, 1)], shape_depth: 1, cache: CacheCfg::None, par: AzksParallelismConfig::disabled() }
     } else {
-        Plan { base_depth: 3, ext_depth: 2, chains: vec![(9, 1), (6, 2)], cache: CacheCfg::None, par: AzksParallelismConfig::disabled() }
+        Plan { base_depth: 3, ext_depth: 2, chains: vec![(9, 1), (6, 2)], shape_depth: 2, cache: CacheCfg::None, par: AzksParallelismConfig::disabled() }
     };
     let v = V7 { rep: &rep, max_anchor: if args.quick() { 3 } else { 6 } };
     run_plan(args.threads, &plan, &v);
